@@ -15,6 +15,23 @@ typedef struct { char *buf; size_t len; size_t cap; } verif_sb_layout;      /* m
 #define SB_PRE(sb) (VERIF_FRESH(sb, sizeof(verif_sb_layout)) && ((verif_sb_layout *)(sb))->cap >= 1 && ((verif_sb_layout *)(sb))->cap <= FMT_CAP_MAX && \
                     ((verif_sb_layout *)(sb))->len < ((verif_sb_layout *)(sb))->cap && VERIF_FRESH(((verif_sb_layout *)(sb))->buf, ((verif_sb_layout *)(sb))->cap))
 
+#ifdef FMT_TOSTRING
+/* assumed contracts of the two dependencies of int_to_string / float_to_string (stub bodies; plain CBMC run) */
+#include <stdarg.h>
+static size_t verif_block;      /* bytes of the block handed out last */
+static size_t verif_bound;      /* the bound passed to snprintf last */
+char *gc_alloc_string(size_t length) { char *p = malloc(length + 1); __CPROVER_assume(p != NULL); p[length] = 0; verif_block = length + 1; return p; }
+int snprintf(char *buf, size_t n, const char *fmt, ...)
+{
+    (void)fmt;
+    __CPROVER_assert(n == 0 || __CPROVER_w_ok(buf, n), "C20.fmt snprintf bound lies within the destination block (C11 7.21.6.5: up to n bytes are written)");
+    verif_bound = n;
+    if (n > 0) buf[nondet_u32() % n] = 0;
+    return nondet_int();
+}
+#else
+char *gc_alloc_string(size_t length);
+#endif
 #include "fmt_sb.c"      /* gen/: the emitted text */
 
 static void nl_fmt_sb_append_char(nl_fmt_sb_t *sb, char c)
@@ -48,5 +65,20 @@ void h_append_cstr(void)
     nl_fmt_sb_t *sb; const char *s;
     nl_fmt_sb_append_cstr(sb, s);
     VERIF_COVER(1);
+}
+#endif
+
+#ifdef FMT_TOSTRING
+void h_to_string(void)
+{
+    int64_t n = nondet_i64();
+    char *a = int_to_string(n);
+    /* "-9223372036854775808" is 20 characters: 21 bytes with the terminator; a smaller block truncates or overflows */
+    __CPROVER_assert(verif_block >= 21 && verif_bound >= 21, "C20.fmt block holds the longest int64 text (20 characters + NUL)");
+    double x = nondet_double();
+    char *b = float_to_string(x);
+    /* %g with the default precision 6: sign + d.ddddd + e+XXX = 13 characters at most */
+    __CPROVER_assert(verif_block >= 14 && verif_bound >= 14, "C20.fmt block holds the longest %g text (13 characters + NUL)");
+    VERIF_COVER(a != NULL && b != NULL);
 }
 #endif
